@@ -924,6 +924,7 @@ class FnExec:
         else:
             seq = self.expr(it, st, pc)
             if not isinstance(seq.t, ListT): raise Unsupported("for over " + ast.unparse(it))
+            st.env["SEQ"] = seq                                      # invariants may name the (once evaluated) sequence a loop iterates over
             lo, hi = z3.IntVal(0), seq.t.len(seq.z)
             def bind(state, g): self.assign(s.target, Val(seq.t.elem, seq.t.at(seq.z, g["IT"])), state, [])
         top = z3.If(hi > lo, hi, lo)
@@ -1069,6 +1070,7 @@ class FnExec:
         for pi, o in enumerate(outs):
             if o.kind in ("normal", "return"):
                 s2 = o.state.copy(); s2.env["result"] = o.value if o.value is not None else Val(NONE, z3.BoolVal(True))
+                if o.value is None and "YIELDED" in o.state.env: s2.env["result"] = o.state.env["YIELDED"]      # a generator: callers see the list of yielded values
                 if (is_init or getattr(spec, "assigns", None)) and o.state.undef:
                     self.oblige(f"path{pi}.init.all_fields_assigned({','.join(sorted(o.state.undef))})", "safe.defined", o.pc, z3.BoolVal(False), self.fn)
                 pcx = list(o.pc)
